@@ -263,3 +263,55 @@ Theorem C01_component_tokens_example :
     Ok [TAtom 9; TBond 9 8; TAtom 8; TBond 8 7; TAtom 7].
 Proof. exact component_tokens_example. Qed.
 Print Assumptions C01_component_tokens_example.
+
+(* ---- closure numbers, neighbour lists, emission ---- *)
+(* casted_cycles and the heap of free closure numbers after a component never depend on the atom numbers *)
+Theorem C01_smiles_invariant_discrete_partial_closure_numbers : forall (s : Z -> Z), (forall x y, s x = s y -> x = y) ->
+  forall (tokens : list (Z * list (Z * Z))) (ro todo casted : list (Z * Z)) (heap : list Z),
+  number_atoms (ren_tokens s tokens) (ren_labels s ro) (ren_labels s todo) casted heap = number_atoms tokens ro todo casted heap.
+Proof. exact number_atoms_ren. Qed.
+Print Assumptions C01_smiles_invariant_discrete_partial_closure_numbers.
+
+Theorem C01_smiles_invariant_discrete_partial_ring_positions : forall (s : Z -> Z), (forall x y, s x = s y -> x = y) ->
+  forall (tokens : list (Z * list (Z * Z))) (smi : list tok) (i : Z),
+  ring_positions (ren_tokens s tokens) (map (ren_tok s) smi) i = ren_labels s (ring_positions tokens smi i).
+Proof. exact ring_positions_ren. Qed.
+Print Assumptions C01_smiles_invariant_discrete_partial_ring_positions.
+
+(* closure lists in closure-number order and the neighbour lists `visited` the stereo marks are computed from *)
+Theorem C01_smiles_invariant_discrete_partial_neighbour_lists : forall (s : Z -> Z), (forall x y, s x = s y -> x = y) ->
+  forall (smi : list tok) (casted : list (Z * Z)) (edges : list (Z * list Z)) (tokens : list (Z * list (Z * Z))) (visited : adjacency),
+  order_neighbours (map (ren_tok s) smi) casted (ren_vis s edges) (ren_tokens s tokens) (ren_vis s visited) =
+  (ren_tokens s (fst (order_neighbours smi casted edges tokens visited)),
+   ren_vis s (snd (order_neighbours smi casted edges tokens visited))).
+Proof. exact order_neighbours_ren. Qed.
+Print Assumptions C01_smiles_invariant_discrete_partial_neighbour_lists.
+
+(* the last loop of a component, CONDITIONAL on the agreement of the token functions (fat = _format_atom, fa = _format_bond
+   of the two sides) on the tokens that are written: same strings, order mapped by s *)
+Theorem C01_smiles_invariant_discrete_partial_emit : forall (s : Z -> Z), (forall x y, s x = s y -> x = y) ->
+  forall (o : opts) (fa fa' : Z -> Z -> pyres string) (fat fat' : Z -> pyres string)
+         (smi : list tok) (tokens : list (Z * list (Z * Z))) (casted : list (Z * Z)),
+  (forall n, In (TAtom n) smi -> fat' (s n) = fat n) ->
+  (forall n m, In (TBond n m) smi -> fa' (s n) (s m) = fa n m) ->
+  (forall n m c, In (TAtom n) smi -> In (m, c) (zgetl tokens n) -> fa' (s n) (s m) = fa n m) ->
+  forall vb : list (Z * Z),
+  emit o fat' fa' (map (ren_tok s) smi) (ren_tokens s tokens) casted (ren_pairs s vb) = ren_emit s (emit o fat fa smi tokens casted vb).
+Proof. exact emit_ren. Qed.
+Print Assumptions C01_smiles_invariant_discrete_partial_emit.
+
+Theorem C01_spelling_ignores_numbers : forall (s : Z -> Z) (l : list otok), spell (map (ren_otok s) l) = spell l.
+Proof. exact spell_ren. Qed.
+Print Assumptions C01_spelling_ignores_numbers.
+
+(* the hypotheses of the emit theorem hold for the real token functions on ethanol renumbered n -> 10 - n *)
+Theorem C01_emit_example :
+  (forall n, In (TAtom n) exw_smi -> exw_fat' (ex_s n) = exw_fat n) /\
+  (forall n m, In (TBond n m) exw_smi -> exw_fa' (ex_s n) (ex_s m) = exw_fa n m) /\
+  (forall n m c, In (TAtom n) exw_smi -> In (m, c) (zgetl ([] : list (Z * list (Z * Z))) n) -> exw_fa' (ex_s n) (ex_s m) = exw_fa n m) /\
+  emit default_opts exw_fat exw_fa exw_smi [] [] [] =
+    Ok ([OAtom 1 "C"; OBond 1 2 ""; OAtom 2 "C"; OBond 2 3 ""; OAtom 3 "O"], [1; 2; 3], []) /\
+  emit default_opts exw_fat' exw_fa' (map (ren_tok ex_s) exw_smi) (ren_tokens ex_s []) [] (ren_pairs ex_s []) =
+    Ok ([OAtom 9 "C"; OBond 9 8 ""; OAtom 8 "C"; OBond 8 7 ""; OAtom 7 "O"], [9; 8; 7], []).
+Proof. exact emit_example. Qed.
+Print Assumptions C01_emit_example.
